@@ -1,1 +1,225 @@
-// Verification-only module (cfg(kani)); harnesses are added here.
+// Verification-only module (cfg(kani)); copied into the scratch copy of /repo by
+// /verif/engine/kani_run.py.
+//
+// C13 (PSK secret chain) and C18 (the chain binds value, id, nonce, index, count and order
+// of every PSK).  RFC 9420 section 8.4:
+//
+//   struct { PSKType psktype;                       // external(1), resumption(2)
+//            select (psktype) {
+//              case external:   opaque psk_id<V>;
+//              case resumption: ResumptionPSKUsage usage;   // application(1) reinit(2) branch(3)
+//                               opaque psk_group_id<V>; uint64 psk_epoch; };
+//            opaque psk_nonce<V>; } PreSharedKeyID;
+//   struct { PreSharedKeyID id; uint16 index; uint16 count; } PSKLabel;
+//
+//   psk_extracted_[i] = KDF.Extract(0, psk_[i])
+//   psk_input_[i]     = ExpandWithLabel(psk_extracted_[i], "derived psk", PSKLabel, KDF.Nh)
+//   psk_secret_[0]    = 0
+//   psk_secret_[i]    = KDF.Extract(psk_input_[i-1], psk_secret_[i-1])
+//
+// (0 = KDF.Nh zero bytes; Extract(salt, ikm)).  The real PskSecret::calculate runs against
+// the ghost provider of key_schedule/verif_kani.rs; the expected bytes come from the
+// hand-written oracle below and the shared rfc_* helpers (no mls-rs-codec).
+use super::*;
+use crate::psk::{ExternalPskId, JustPreSharedKeyID, PskGroupId, PskNonce, ResumptionPSKUsage, ResumptionPsk};
+
+crate::c13_ghost_support!();
+
+fn any_id() -> PreSharedKeyID {
+    let key_id = if kani::any() {
+        JustPreSharedKeyID::External(ExternalPskId::new(any_bytes::<2>()))
+    } else {
+        let u: u8 = kani::any();
+        kani::assume(u < 3);
+        let usage = match u {
+            0 => ResumptionPSKUsage::Application,
+            1 => ResumptionPSKUsage::Reinit,
+            _ => ResumptionPSKUsage::Branch,
+        };
+        JustPreSharedKeyID::Resumption(ResumptionPsk {
+            usage,
+            psk_group_id: PskGroupId(any_bytes::<2>()),
+            psk_epoch: kani::any(),
+        })
+    };
+    PreSharedKeyID { key_id, psk_nonce: PskNonce(any_bytes::<2>()) }
+}
+
+fn any_input() -> PskSecretInput {
+    PskSecretInput { id: any_id(), psk: PreSharedKey::new(any_bytes::<2>()) }
+}
+
+fn rfc_psk_label(id: &PreSharedKeyID, index: u16, count: u16) -> Vec<u8> {
+    let mut o = Vec::with_capacity(48);
+    match &id.key_id {
+        JustPreSharedKeyID::External(e) => {
+            o.push(1);
+            rfc_opaque(&mut o, e.as_ref());
+        }
+        JustPreSharedKeyID::Resumption(r) => {
+            o.push(2);
+            o.push(match r.usage {
+                ResumptionPSKUsage::Application => 1,
+                ResumptionPSKUsage::Reinit => 2,
+                ResumptionPSKUsage::Branch => 3,
+            });
+            rfc_opaque(&mut o, &r.psk_group_id.0);
+            rfc_u64(&mut o, r.psk_epoch);
+        }
+    }
+    rfc_opaque(&mut o, &id.psk_nonce.0);
+    rfc_u16(&mut o, index);
+    rfc_u16(&mut o, count);
+    o
+}
+
+/// calls 3i, 3i+1, 3i+2 of the trace are step i of the chain; `prev` is psk_secret_[i]
+fn check_step(p: &GhostProvider, i: usize, n: usize, inp: &PskSecretInput, prev: &[u8]) {
+    let zero = [0u8; NH];
+    let c = 3 * i;
+    // psk_extracted_[i] = Extract(salt = 0, ikm = psk_[i])                      -> tag c+1
+    assert!(p.is(c, Op::Extract, &zero, inp.psk.raw_value(), 0));
+    // psk_input_[i] = ExpandWithLabel(psk_extracted_[i], "derived psk", PSKLabel) -> tag c+2
+    let ctx = rfc_psk_label(&inp.id, i as u16, n as u16);
+    assert!(p.is(
+        c + 1,
+        Op::Expand,
+        &out(c as u8 + 1, NH),
+        &rfc_kdf_label(NH as u16, b"derived psk", &ctx),
+        NH
+    ));
+    // psk_secret_[i+1] = Extract(salt = psk_input_[i], ikm = psk_secret_[i])      -> tag c+3
+    assert!(p.is(c + 2, Op::Extract, &out(c as u8 + 2, NH), prev, 0));
+}
+
+#[kani::proof]
+#[kani::stub(zeroize::optimization_barrier, noop_barrier)]
+#[kani::unwind(50)]
+fn c13_psk_secret_0() {
+    let p = GhostProvider::new();
+    let r = PskSecret::calculate(&[], &p);
+    assert!(r.is_ok());
+    let s = r.ok().unwrap();
+    kani::cover!(true);
+    assert!(p.calls() == 0);
+    assert!(is_out(&s, 0, NH)); // psk_secret_[0] = 0
+    // PskSecret::new is the same all-zero value
+    assert!(is_out(&PskSecret::new(&p), 0, NH));
+}
+
+#[kani::proof]
+#[kani::stub(zeroize::optimization_barrier, noop_barrier)]
+#[kani::unwind(50)]
+fn c13_psk_secret_1_bounded_2() {
+    let p = GhostProvider::new();
+    let a = any_input();
+    let input = [a.clone()];
+    let r = PskSecret::calculate(&input, &p);
+    assert!(r.is_ok());
+    let s = r.ok().unwrap();
+    kani::cover!(matches!(a.id.key_id, JustPreSharedKeyID::External(_)));
+    kani::cover!(matches!(a.id.key_id, JustPreSharedKeyID::Resumption(_)));
+    assert!(p.calls() == 3);
+    check_step(&p, 0, 1, &a, &[0u8; NH]);
+    assert!(is_out(&s, 3, NH));
+}
+
+#[kani::proof]
+#[kani::stub(zeroize::optimization_barrier, noop_barrier)]
+#[kani::unwind(50)]
+fn c13_psk_secret_2_bounded_2() {
+    let p = GhostProvider::new();
+    let a = any_input();
+    let b = any_input();
+    let input = [a.clone(), b.clone()];
+    let r = PskSecret::calculate(&input, &p);
+    assert!(r.is_ok());
+    let s = r.ok().unwrap();
+    kani::cover!(
+        matches!(a.id.key_id, JustPreSharedKeyID::External(_))
+            && matches!(b.id.key_id, JustPreSharedKeyID::Resumption(_))
+    );
+    assert!(p.calls() == 6);
+    check_step(&p, 0, 2, &a, &[0u8; NH]);
+    check_step(&p, 1, 2, &b, &out(3, NH));
+    assert!(is_out(&s, 6, NH));
+}
+
+// a provider failure at any step is reported as CryptoProviderError and stops the chain
+#[kani::proof]
+#[kani::stub(zeroize::optimization_barrier, noop_barrier)]
+#[kani::unwind(50)]
+fn c13_psk_secret_provider_error_bounded_2() {
+    let at: usize = kani::any();
+    kani::assume(at < 6);
+    let p = GhostProvider::failing_at(at);
+    let input = [any_input(), any_input()];
+    let r = PskSecret::calculate(&input, &p);
+    kani::cover!(at == 5);
+    assert!(is_provider_error(&r));
+    assert!(p.calls() == at + 1);
+    core::mem::forget(r);
+}
+
+// ------------------------------------------------------------------ C18
+fn same_trace(p: &GhostProvider, q: &GhostProvider) -> bool {
+    let n = p.calls();
+    if q.calls() != n {
+        return false;
+    }
+    let t = q.trace.borrow();
+    let mut i = 0;
+    while i < n {
+        if !p.is(i, t[i].op, &t[i].a, &t[i].b, t[i].len) {
+            return false;
+        }
+        i += 1;
+    }
+    true
+}
+
+// Order: the KDF inputs of [A, B] and of [B, A] coincide only if A and B are the same PSK
+// (same id, nonce and value).  In the ghost model distinct inputs are distinct terms, so
+// swapping two different PSKs changes psk_secret and with it every secret of the epoch.
+#[kani::proof]
+#[kani::stub(zeroize::optimization_barrier, noop_barrier)]
+#[kani::unwind(50)]
+fn c18_psk_order_bounded_2() {
+    let a = any_input();
+    let b = any_input();
+    let p = GhostProvider::new();
+    let q = GhostProvider::new();
+    let r1 = PskSecret::calculate(&[a.clone(), b.clone()], &p);
+    let r2 = PskSecret::calculate(&[b.clone(), a.clone()], &q);
+    assert!(r1.is_ok() && r2.is_ok());
+    let same = same_trace(&p, &q);
+    kani::cover!(same);
+    kani::cover!(!same);
+    if same {
+        assert!(a.id == b.id);
+        assert!(bytes_eq(a.psk.raw_value(), b.psk.raw_value()));
+    }
+}
+
+// Value, id, nonce, index, count: the real encoder of the PSKLabel that enters the chain is
+// injective, i.e. two labels with the same bytes have the same id (type, id / usage, group,
+// epoch, nonce), index and count.
+#[kani::proof]
+#[kani::stub(zeroize::optimization_barrier, noop_barrier)]
+#[kani::unwind(50)]
+fn c18_psk_label_injective_bounded_2() {
+    let (ia, ib) = (any_id(), any_id());
+    let (xa, xb): (u16, u16) = (kani::any(), kani::any());
+    let (ca, cb): (u16, u16) = (kani::any(), kani::any());
+    let la = PSKLabel { id: &ia, index: xa, count: ca }.mls_encode_to_vec();
+    let lb = PSKLabel { id: &ib, index: xb, count: cb }.mls_encode_to_vec();
+    assert!(la.is_ok() && lb.is_ok());
+    let (la, lb) = (la.ok().unwrap(), lb.ok().unwrap());
+    // the real encoding is the RFC encoding
+    assert!(bytes_eq(&la, &rfc_psk_label(&ia, xa, ca)));
+    let same = bytes_eq(&la, &lb);
+    kani::cover!(same);
+    if same {
+        assert!(ia == ib && xa == xb && ca == cb);
+    }
+}
